@@ -8,14 +8,14 @@ import warnings
 import numpy as np
 
 USER = dict(orthogonal=False, psinorm_core=0.85, psinorm_sol=1.15, psinorm_pf=0.9, ny_inner_divertor=4, ny_sol=8, ny_outer_divertor=4, nx_core=3, nx_sol=3,
-            psi_spacing_separatrix_multiplier=0.5, target_all_poloidal_spacing_length=0.3, y_boundary_guards=0, finecontour_Nfine=60)  # fmt: skip
+            psi_spacing_separatrix_multiplier=0.5, target_all_poloidal_spacing_length=0.3, y_boundary_guards=1, finecontour_Nfine=60, geometry_rtol=1.0e-6)  # fmt: skip
 SETTINGS = {
     "A": {},
     "B": dict(nonorthogonal_target_all_poloidal_spacing_range=0.4, nonorthogonal_radial_range_power=2),
     "C": dict(nonorthogonal_xpoint_poloidal_spacing_range=0.08, nonorthogonal_target_all_poloidal_spacing_length=0.6),
 }
 VARS = ["Rxy", "Zxy"]
-GEOM = ["hy", "poloidal_distance", "Bpxy", "J", "g11", "g22", "g33", "g23"]
+GEOM = ["hy", "poloidal_distance", "zShift", "Bpxy", "J", "g11", "g22", "g33", "g23"]
 LOCS = ["centre", "xlow", "ylow", "corners"]
 
 
@@ -34,7 +34,7 @@ def make_eq(repo, nons, geometry="lsn"):
     wall = [(r1d[0] + w, z1d[0] + w), (r1d[0] + w, z1d[-1] - w), (r1d[-1] - w, z1d[-1] - w), (r1d[-1] - w, z1d[0] + w)]
     settings = dict(USER)
     settings.update(nons)
-    eq = tokamak.TokamakEquilibrium(r1d, z1d, psi2d, psi1d, fpol1D=[], settings=settings, nonorthogonal_settings=dict(nons), wall=wall)
+    eq = tokamak.TokamakEquilibrium(r1d, z1d, psi2d, psi1d, fpol1D=1.5 + 0.2 * (psi1d - psi1d[0]) / (psi1d[-1] - psi1d[0]), settings=settings, nonorthogonal_settings=dict(nons), wall=wall)
     return eq, settings
 
 
